@@ -214,7 +214,10 @@ def main():
                 open(os.path.join(d, "model.yml"), "w").write(txt)
                 man = "namespace: Evo\n"
                 if ver == "cur":
-                    man += "versions:\n  v0: ../../v0/model\n  v1: ../../v1/model\n"
+                    # the order in which the versions are listed is the user's choice; newest first (odd seeds) puts a version in
+                    # which half of the protocols have not changed since in front of one in which they all have
+                    order = ("v1", "v0") if c.seed % 2 == 1 else ("v0", "v1")
+                    man += "versions:\n" + "".join("  %s: ../../%s/model\n" % (v, v) for v in order)
                 man += "cpp:\n  sourcesOutputDir: ../cpp\n  generateHDF5: false\n  generateCMakeLists: false\n  overrideArrayHeader: yardl_shim_ndarray.h\n"
                 open(os.path.join(d, "_package.yml"), "w").write(man)
         active = list(probes)
